@@ -4,9 +4,15 @@ import json, sys
 
 CLAIMED = {
  # id: (technique, level text, level note, design ref)
+ "C03": ("deterministic simulation: scripted peers interleave bind/unbind/subscribe/write with conn.drop, conn.restart, peer.entity_remove and net.dup faults; reference binding registry decides per write whether it is authorised; data snapshots, outbound traces and events are the observables",
+         "Seeded exploration of interleaved histories of bind, unbind, subscribe, write (from the bound feature, from another feature of the same peer, to read-only functions), disconnect/reconnect and entity removal by 2-3 peers with overlapping numbering against 2-6 local server features; for each delivered write the oracle requires, when unauthorised, unchanged data, no notification, no data-change event and exactly one error result, and when authorised, the data applied, one notify per current subscriber, one event and a success result iff ack.",
+         "Sampling; trusted: instrumenter, synctest, registry model (A.5). Writes whose handling overlaps a registry change on their key, or other updates of the same function, are only checked for <=1 result.", "5/C03"),
  "C07": ("deterministic simulation: seeded schedules over concurrent GetOrAddFeature/NextFeatureId tasks + discovery replies vs. a model of the local tree; identity/uniqueness oracle",
          "Seeded exploration of interleavings at lock/spawn/atomic granularity (statement granularity in entity_local.go in the thorough tier) of concurrent feature creation, and of histories of entity/feature additions and removals interleaved with discovery reads from subscribed and unsubscribed scripted peers; every discovery reply and every add/remove notification is compared with a model built from the harness's own calls.",
          "Sampling of schedules and histories; trusted: instrumenter rewrites, synctest, the local-tree model in harness/sc_c07*.go.", "5/C07"),
+ "C08": ("deterministic simulation: scripted peers issue subscribe/unsubscribe/listing calls (with duplicated deliveries) while app tasks change data; porcupine linearizability of the registry history + exactly-once fan-out oracle over the outbound traces",
+         "Seeded exploration of histories of subscription calls (valid, duplicate, wrong role/type, unknown addresses, omitted device, listing calls) from 2-3 peers with overlapping numbering, interleaved with SetData/UpdateData from app tasks and net.dup faults; results and listings are checked for linearizability against the sequential registry; each data change must produce exactly one notify per certainly-subscribed remote feature, none to certainly-unsubscribed ones.",
+         "Sampling; trusted: instrumenter, synctest, porcupine, registry model (Appendix A.5); a change overlapping a registry operation on the same key accepts 0 or 1 notify.", "5/C08"),
  "C09": ("deterministic simulation: two/three scripted peers with overlapping numbering, reader tasks interleaved by a seeded scheduler; porcupine linearizability of the call/result history against a sequential registry + per-step invariant",
          "Seeded exploration of histories of bind/unbind calls (valid, second binding, wrong role/type, unknown addresses, omitted device) from 2-3 peers with concurrent handling on different connections; invariant |bindings(f)|<=1 after every scheduling step; porcupine linearizability of results and final listings against the sequential registry; event counts.",
          "Sampling; trusted: instrumenter, synctest, porcupine, the registry model (DESIGN Appendix A.5).", "5/C09"),
